@@ -404,6 +404,10 @@ func genTable(r *simrt.RNG, used map[string]bool, srs gpkgh.SRS, t tms20.TileMat
 			n = 0
 		}
 	}
+	if r.Chance(0.012) && tb.GeomType != gpkgh.TPolygon && tb.GeomType != gpkgh.TMultiPolygon && tb.GeomType != gpkgh.TGeometry {
+		n = 1050 + r.Intn(1500) // now and then a table longer than the default page (1000 rows)
+		w.PageSize = []int{1000, 1000, 999, 1024, 512}[r.Intn(5)]
+	}
 	fid := int64(1 + r.Intn(100))
 	for i := 0; i < n; i++ {
 		var row gpkgh.Row
